@@ -32,14 +32,15 @@ def main():
         rc, o = sh('git -C /repo worktree add -q --detach %s HEAD' % repo)
         assert rc == 0, o
         env = dict(os.environ, PYTHONPATH=repo, PYTHONDONTWRITEBYTECODE='1', PYTHONHASHSEED='0', OMP_NUM_THREADS='2', MKL_NUM_THREADS='2', NUMBA_NUM_THREADS='4')
-        rc0, o0 = sh('/venv/bin/python %s' % os.path.join(d, 'demo.py'), cwd=repo, env=env, timeout=1800)
+        denv = {k: v for k, v in env.items() if k != 'NUMBA_NUM_THREADS'}   # demos may set their own thread counts
+        rc0, o0 = sh('/venv/bin/python %s' % os.path.join(d, 'demo.py'), cwd=repo, env=denv, timeout=1800)
         out['demo_unchanged_rc'] = rc0
         rc, o = sh('git apply %s' % os.path.join(d, 'patch.diff'), cwd=repo)
         out['patch_applies'] = rc == 0
         if rc != 0:
             out['apply_log'] = o[-500:]
             return out
-        rc1, o1 = sh('/venv/bin/python %s' % os.path.join(d, 'demo.py'), cwd=repo, env=env, timeout=1800)
+        rc1, o1 = sh('/venv/bin/python %s' % os.path.join(d, 'demo.py'), cwd=repo, env=denv, timeout=1800)
         out['demo_patched_rc'] = rc1
         out['demo_patched_tail'] = o1[-300:]
         if do_tests:
